@@ -1376,7 +1376,7 @@ pub fn c10_release_fault_variants(base: &Scenario, api_log: &[(usize, u32, crate
             for st in s.program.threads[sh.tid].iter_mut() {
                 match st {
                     Step::Acquire(a) => {
-                        a.body.retain(|b| !matches!(b, BodyOp::Panic));
+                        a.body.retain(|b| !matches!(b, BodyOp::Panic | BodyOp::ArmBomb));
                         for b in a.body.iter_mut() {
                             if let BodyOp::NonAcq(op @ NonAcqOp::DebugPayloadPanic, _) = b {
                                 *op = NonAcqOp::Debug;
